@@ -11,6 +11,9 @@ package main
 //	item  = {k, tc, n, f:{b,i,u,st,color,sz,font,hl}}
 
 import (
+	"archive/zip"
+	"bytes"
+	"fmt"
 	"sort"
 	"strconv"
 	"strings"
@@ -263,4 +266,112 @@ func hfProject(b []byte, texts map[string]hfTok) hfM {
 		}
 	}
 	return out
+}
+
+// hfWordNames rewrites a package into an equivalent one whose header/footer parts are numbered the
+// way Word numbers them (header1.xml, header2.xml, ... / footer1.xml, ...), here in the order of kind
+// first, even, default. Part names, relationship targets and content-type overrides are renamed
+// consistently; nothing else changes.
+func hfWordNames(b []byte) ([]byte, error) {
+	p := ReadPkg(b)
+	if p.ZipErr != "" {
+		return nil, fmt.Errorf("zip: %s", p.ZipErr)
+	}
+	body, err := p.MainBody()
+	if err != nil {
+		return nil, err
+	}
+	main := p.MainDocName()
+	relsName := RelsPartFor(main)
+	target := map[string]string{} // relationship id -> raw target
+	for _, r := range p.Rels[relsName] {
+		if (r.Type == relHeader || r.Type == relFooter) && r.Mode != "External" {
+			target[r.ID] = r.Target
+		}
+	}
+	var sect *Node
+	for _, k := range body.Kids {
+		if k.Local == "sectPr" {
+			sect = k
+		}
+	}
+	rank := map[string]int{"first": 0, "even": 1, "default": 2}
+	type ref struct {
+		el, kind, tgt string
+	}
+	var refs []ref
+	if sect != nil {
+		for _, k := range sect.Kids {
+			if k.Local == "headerReference" || k.Local == "footerReference" {
+				if t, ok := target[k.A("id")]; ok && !strings.Contains(t, "/") {
+					refs = append(refs, ref{k.Local, k.A("type"), t})
+				}
+			}
+		}
+	}
+	sort.SliceStable(refs, func(i, j int) bool { return rank[refs[i].kind] < rank[refs[j].kind] })
+	ren := map[string]string{} // old file name -> new file name (both relative to word/)
+	n := map[string]int{}
+	for _, r := range refs {
+		if _, done := ren[r.tgt]; done {
+			continue
+		}
+		prefix := "header"
+		if r.el == "footerReference" {
+			prefix = "footer"
+		}
+		n[prefix]++
+		ren[r.tgt] = fmt.Sprintf("%s%d.xml", prefix, n[prefix])
+	}
+	// two-phase textual renaming of Target="x" / PartName="/word/x" so that swaps work
+	var olds []string
+	for o := range ren {
+		olds = append(olds, o)
+	}
+	sort.Strings(olds)
+	taken := map[string]bool{}
+	for _, o := range olds {
+		taken[ren[o]] = true
+	}
+	swap := func(data []byte, pre string) []byte {
+		s := string(data)
+		for i, o := range olds {
+			s = strings.ReplaceAll(s, pre+o+`"`, fmt.Sprintf("%s@@%d@@\"", pre, i))
+		}
+		for i, o := range olds {
+			s = strings.ReplaceAll(s, fmt.Sprintf("%s@@%d@@\"", pre, i), pre+ren[o]+`"`)
+		}
+		return []byte(s)
+	}
+	var buf bytes.Buffer
+	zw := zip.NewWriter(&buf)
+	for _, name := range p.SortedNames() {
+		data := p.Parts[name]
+		out := name
+		if strings.HasPrefix(name, "word/") {
+			base := strings.TrimPrefix(name, "word/")
+			if nn, ok := ren[base]; ok {
+				out = "word/" + nn
+			} else if taken[base] {
+				continue // an unreferenced part whose name a referenced part now takes
+			}
+		}
+		switch name {
+		case relsName:
+			data = swap(data, `Target="`)
+		case "[Content_Types].xml":
+			data = swap(data, `PartName="/word/`)
+		}
+		w, err := zw.Create(out)
+		if err != nil {
+			return nil, err
+		}
+		if _, err := w.Write(data); err != nil {
+			return nil, err
+		}
+	}
+	if err := zw.Close(); err != nil {
+		return nil, err
+	}
+	return buf.Bytes(), nil
 }
